@@ -673,6 +673,26 @@ fn vc15_rtcp_sdes() {
     leak(out); leak(bytes); leak(pk);
 }
 
+// @h name=vc15_rtcp_sdes_aligned tier=quick timeout=600
+// @fn marshal_rtcp_packets, build_sdes_body, parse_rtcp_packets, parse_sdes
+// @bound SDES with 1 chunk, 1 CNAME item "ab" (symbolic SSRC): SSRC + item = 8 bytes, i.e. the item list ends exactly on a 32-bit boundary
+// @oracle RFC 3550 6.5: the item list is terminated by at least one null octet and padded to a 32-bit boundary, so the packet is 4 + 8 + 4 = 16 bytes with a zero terminator word (an independent reader needs it, and a following chunk would otherwise be read as an item); parse(marshal([x])) == [x] (seeded change C15-D)
+#[kani::proof]
+#[kani::unwind(10)]
+fn vc15_rtcp_sdes_aligned() {
+    let c: [u8; 2] = *b"ab"; // concrete text (symbolic 2-character text did not finish in 600 s); the SSRC is symbolic
+    let text = String::from("ab");
+    let ssrc: u32 = kani::any();
+    let pk = [RtcpPacket::SourceDescription(SourceDescription { chunks: vec![SdesChunk { ssrc, items: vec![SdesItem { ty: 1, text }] }] })];
+    let bytes = marshal_rtcp_packets(&pk).unwrap();
+    assert!(bytes.len() == 16 && bytes[0] == 0x81 && bytes[1] == 202 && bytes[3] == 3, "aligned item list not followed by a terminator word");
+    assert!(bytes[8] == 1 && bytes[9] == 2 && bytes[10] == c[0] && bytes[11] == c[1] && bytes[12] == 0 && bytes[13] == 0 && bytes[14] == 0 && bytes[15] == 0);
+    let out = parse_rtcp_packets(&bytes, None).unwrap();
+    match &out[0] { RtcpPacket::SourceDescription(d) => assert!(d.chunks.len() == 1 && d.chunks[0].ssrc == ssrc && d.chunks[0].items.len() == 1 && d.chunks[0].items[0].text.len() == 2), _ => assert!(false) }
+    kani::cover!(c[0] == b'a', "reached");
+    leak(out); leak(bytes); leak(pk);
+}
+
 // @h name=vc15_rtcp_twcc tier=quick timeout=300
 // @fn build_twcc_body, parse_twcc_body, parse_rtcp_rtpfb
 // @bound TWCC feedback with a 4-byte symbolic payload (word aligned, as RFC draft chunks+deltas are after padding); 24-bit reference time
